@@ -1,27 +1,32 @@
 import CedarVerif.Lemmas.SyntaxSound
+import CedarVerif.Lemmas.SyntaxSplitOn
 /-
 C05 — policy text → AST → text round trip.  Property theorems (every `theorem` here is an obligation).
 Model: Cedar/Syntax/{Token,Escape,Print,Parse}.lean.
 
 What is proved about `Parse.expr (Print.expr me e) = some e` (for every escape table `me`):
-* `parse_print_partial`  — fragment `inFrag2` (Lemmas/SyntaxChain.lean): Bool / i64 / string literals, variables, `!`, unary
-  minus, `* + - == < <= in && ||` incl. unparenthesised left-nested chains, `e has attr`, `if-then-else`.
-* `parse_print_partial3` — fragment `inFrag3 ⊇ inFrag2` (Lemmas/SyntaxMem.lean, proof in Lemmas/Syntax{Mem,Rec,Name,Prim,Full}.lean):
-  INSIDE: every constructor the parser can produce, i.e. all of the above plus entity-uid literals `T::"id"`, slots,
-  `e.attr` / `e["attr"]`, `like`, `is T`, `contains containsAll containsAny isEmpty getTag hasTag`, extension functions
-  (function style, any arity) and extension methods (method style), set literals, record literals (strictly key-sorted;
-  identifier, variable-name and string keys).  Desugared surface forms (`!= > >=`, `is T in e`, `has a.b.c`) are not ASTs;
+* `parse_print_full : ParsePrintFull` — THE FULL STATEMENT: for every AST in `ParserImage` (what `cst_to_ast` can produce).
+  INSIDE: Bool / i64 (both boundary values) / string literals, entity-uid literals `T::"id"` (any escapes), variables,
+  slots, `!`, unary minus, `* + - == < <= in && ||` incl. the unparenthesised left-nested chains, `if-then-else`,
+  `e has attr`, `e.attr` / `e["attr"]` (identifier vs non-identifier / reserved-word names), `like` (any pattern),
+  `is T`, `contains containsAll containsAny isEmpty getTag hasTag`, extension functions (function style, any arity)
+  and extension methods (method style), set literals, record literals (strictly key-sorted; identifier, variable-name
+  and string keys), arbitrarily nested.  Desugared surface forms (`!= > >=`, `is T in e`, `has a.b.c`) are not ASTs;
   the ASTs they lower to are inside.
-  OUTSIDE (relative to `ParserImage`): only type names `ty` (entity literals, `is`) for which
-  `"::".intercalate (ty.splitOn "::") = ty` is not *checked* — `inFrag3` carries this as a decidable side condition because
-  Lean core has no lemma about the legacy `String.splitOn`.  It holds for every string as far as we know.
-* `parse_print_full_of_splitOn` — `SplitOnJoin → ParsePrintFull`: the full statement follows from that one library fact.
-* `inFrag3_parserImage`, `inFrag2_inFrag3` — the fragments are nested inside `ParserImage`.
-* `parse_image` — soundness of the image predicate: on well-formed tokens `Parse.expr` only returns `ParserImage` ASTs;
-  `parse_print_parse` — accepted text → AST → printed text → the same AST.  Both under the hypothesis `SplitOnSpec`
-  (`splitOn ∘ intercalate = id` on identifiers; proof in Lemmas/SyntaxSound.lean).
-Not proved: the two `String.splitOn` facts (`SplitOnJoin`, `SplitOnSpec`) — hence `ParsePrintFull` outright; anything about
-policies / templates / annotations at the token level (checked on the implementation by the harness).
+  OUTSIDE (= not in `ParserImage`, the parser never produces them): `.unknown` nodes, `&&`/`||` of two Boolean literals,
+  non-extension `call`s, extension methods without receiver, unsorted / duplicate-key records, out-of-range integers,
+  type names that are not `::`-separated unreserved identifiers.
+* `parse_image` — soundness of the image predicate: on well-formed tokens (`TokWF`: `IDENTIFIER` tokens have identifier
+  syntax) `Parse.expr` only returns `ParserImage` ASTs.
+* `parse_print_parse` — from text: every accepted token list `ts` with `Parse.expr ts = some e` satisfies
+  `Parse.expr (Print.expr me e) = some e`.
+* `parse_print_partial3` (fragment `inFrag3`, Lemmas/SyntaxMem.lean; = `ParserImage` by `inFrag3_parserImage` /
+  `parserImage_inFrag3`), `parse_print_partial` (the older, smaller fragment `inFrag2`, independent proof), `inFrag2_inFrag3`.
+Proof files: Lemmas/Syntax{Parse,Frag,Main,Chain}.lean (operators, chains), Syntax{Mem,Rec,Name,Prim,Full}.lean (`Member`
+level in continuation form, lists, records, names, the induction), SyntaxSound.lean (parser invariant), SyntaxSplitOn.lean
+(`intercalate "::" ∘ splitOn "::" = id` and the converse on identifiers, for the legacy byte-position `String.splitOn`).
+Not covered by theorems: policies / templates / annotations at the token level and the lexer (checked on the
+implementation by the harness); the nesting-depth limit of the real parser (the model has none).
 -/
 namespace Cedar.C05
 open Cedar Cedar.Syntax
@@ -170,9 +175,8 @@ method style (`a.lessThan(b)`, `a.isInRange(b)`, `a.offset(b)`, …), set litera
 (strictly key-sorted, identifier / variable-name / string keys), arbitrarily nested, with the printer's own
 parenthesisation (`maybe_with_parens`; unparenthesised `Member` operands `a.b.c(d)[“e”]`, left-nested chains).
 The only difference between `inFrag3` and `ParserImage`: a type name `ty` (in an entity literal or after `is`) must
-in addition satisfy the decidable side condition `"::".intercalate (ty.splitOn "::") = ty` — a fact about the legacy
-`String.splitOn` (well-founded recursion over byte positions) for which Lean core has no lemma; see
-`parse_print_full_of_splitOn` below.  Forms the parser desugars (`!=`, `>`, `>=`, `e is T in e'`, `e has a.b.c`) are
+in addition satisfy the decidable side condition `"::".intercalate (ty.splitOn "::") = ty` — which always holds
+(`joinName_splitOn`, Lemmas/SyntaxSplitOn.lean), so the two predicates coincide; see `parse_print_full` below.  Forms the parser desugars (`!=`, `>`, `>=`, `e is T in e'`, `e has a.b.c`) are
 not ASTs: their images (`!(a == b)`, `!(a <= b)`, `!(a < b)`, `e is T && e in e'`, `e has a && e.a has b && …`) are
 in the fragment.  Outside: `.unknown` nodes, `&&`/`||` of two Boolean literals, non-extension `call`s, extension
 methods with no receiver, unsorted / duplicate-key records, out-of-range integers — none of which the parser produces. -/
@@ -368,6 +372,19 @@ theorem parserImage_inFrag3 (sj : SplitOnJoin) : ∀ k e, sz3 e ≤ k → Parser
 theorem parse_print_full_of_splitOn (sj : SplitOnJoin) : ParsePrintFull :=
   fun me e h => parse_print_partial3 me e (parserImage_inFrag3 sj (sz3 e) e (Nat.le_refl _) h)
 
+/-- **C05, expression level, full statement**: for every AST the parser can produce and every behaviour of the
+`escape_debug` tables, parsing the printed form gives the AST back. -/
+theorem parse_print_full : ParsePrintFull := parse_print_full_of_splitOn joinName_splitOn
+
+-- the full theorem on a concrete AST
+example : Parse.expr (Print.expr (fun c => c.toNat ≥ 127)
+    (.is (.getAttr (.lit (.entityUID ⟨"Ns::User", "a\"b"⟩)) "if") "Ns::User")) =
+    some (.is (.getAttr (.lit (.entityUID ⟨"Ns::User", "a\"b"⟩)) "if") "Ns::User") :=
+  parse_print_full _ _ (by
+    have h : "Ns::User".splitOn "::" = ["Ns", "User"] := by split_on_eval
+    simp [ParserImage, validTypeName, h]
+    decide)
+
 /-- the old fragment is inside the new one -/
 theorem inFrag2_inFrag3 : ∀ k e, fsize e ≤ k → inFrag2 e = true → inFrag3 e = true := by
   intro k
@@ -441,27 +458,27 @@ example : Parse.expr (Print.expr (fun _ => true) (.unaryApp .not (.hasAttr (.has
 /-! ### from text: parse, print, parse again -/
 
 /-- Soundness of the image predicate: on well-formed tokens (`TokWF`: every `IDENTIFIER` token has identifier syntax,
-which the lexer guarantees) the parser only returns ASTs in `ParserImage`.  Hypothesis `SplitOnSpec`
-(`(intercalate "::" comps).splitOn "::" = comps` for identifiers `comps`): the library fact about `String.splitOn`
-needed because `ParserImage` / the printer look at a type name through `splitOn`. -/
-theorem parse_image (spec : SplitOnSpec) (ts : List Token) (hwf : TokWF ts) (e : Expr) (h : Parse.expr ts = some e) :
+which the lexer guarantees) the parser only returns ASTs in `ParserImage`.  (Uses `splitOn_joinName`,
+`(intercalate "::" comps).splitOn "::" = comps` for identifiers, because `ParserImage` and the printer look at a type
+name through `String.splitOn`.) -/
+theorem parse_image (ts : List Token) (hwf : TokWF ts) (e : Expr) (h : Parse.expr ts = some e) :
     ParserImage e = true :=
-  inFrag3_parserImage (sz3 e) e (Nat.le_refl _) (parse_sound spec hwf h)
+  inFrag3_parserImage (sz3 e) e (Nat.le_refl _) (parse_sound splitOn_joinName hwf h)
 
 /-- The round trip starting from text: whatever the parser accepts, printing the AST (with any escape table) and
-parsing again gives the same AST — hence the same meaning.  (Token level; modulo `SplitOnSpec`.) -/
-theorem parse_print_parse (spec : SplitOnSpec) (mustEscape : Char → Bool) (ts : List Token) (hwf : TokWF ts) (e : Expr)
+parsing again gives the same AST — hence the same meaning.  (Token level.) -/
+theorem parse_print_parse (mustEscape : Char → Bool) (ts : List Token) (hwf : TokWF ts) (e : Expr)
     (h : Parse.expr ts = some e) : Parse.expr (Print.expr mustEscape e) = some e :=
-  parse_print_partial3 mustEscape e (parse_sound spec hwf h)
+  parse_print_partial3 mustEscape e (parse_sound splitOn_joinName hwf h)
 
 -- non-vacuity: `principal has a.b && resource != context.x` (desugared forms: `has a.b`, `!=`)
-example (spec : SplitOnSpec) :
+example :
     Parse.expr (Print.expr (fun _ => false)
       (.and (.and (.hasAttr (.var .principal) "a") (.hasAttr (.getAttr (.var .principal) "a") "b"))
             (.unaryApp .not (.binaryApp .eq (.var .resource) (.getAttr (.var .context) "x"))))) =
     some (.and (.and (.hasAttr (.var .principal) "a") (.hasAttr (.getAttr (.var .principal) "a") "b"))
             (.unaryApp .not (.binaryApp .eq (.var .resource) (.getAttr (.var .context) "x")))) :=
-  parse_print_parse spec _
+  parse_print_parse _
     [.ident "principal", .ident "has", .ident "a", .dot, .ident "b", .andand, .ident "resource", .neq, .ident "context", .dot, .ident "x"]
     (by intro s hs; simp at hs; rcases hs with rfl | rfl | rfl | rfl | rfl | rfl | rfl <;> decide) _ (by rfl)
 
